@@ -301,11 +301,15 @@ def real_schedule_cases(ctx):
     import pydsdl
     types = pydsdl.read_namespace(os.path.join(d, "dsdl", "cov"), [], allow_unregulated_fixed_port_id=True)
     recorded = []
+    current = ["trim_lim2"]
     orig = nunavut.jinja.CodeGenerator.__dict__["_generate_with_line_buffer"].__func__
 
     def tee(cls, output_file, template_gen, line_pps):
         chunks = list(template_gen)
-        recorded.append((output_file.name, chunks))
+        # the processors the call site really applies (the generator adds the language's defaults to the caller's list)
+        desc = [("trim",) if isinstance(pp, TrimTrailingWhitespace) else ("lim", pp._max_empty_lines) if isinstance(pp, LimitEmptyLines) else ("other", type(pp).__name__)
+                for pp in line_pps]
+        recorded.append((output_file.name, chunks, (current[0], desc)))
         return orig(cls, output_file, iter(chunks), line_pps)
     nunavut.jinja.CodeGenerator._generate_with_line_buffer = classmethod(tee)
     try:
@@ -318,19 +322,42 @@ def real_schedule_cases(ctx):
             gen.generate_all()
             sup = nunavut.jinja.SupportGenerator(ns, post_processors=[TrimTrailingWhitespace(), LimitEmptyLines(2)])
             sup.generate_all()
+        # one generator writing many files whose texts begin and end with empty / whitespace-only lines: every file is the
+        # complete text of its own rendering, whatever the same generator wrote before it
+        import pathlib
+        tpl = os.path.join(d, "tpl_blank")
+        os.makedirs(tpl, exist_ok=True)
+        with open(os.path.join(tpl, "Any.j2"), "w", newline="") as f:
+            f.write("\n \n{{ T.full_name }}   \n\t\n\n\n{{ T.version.major }}\n{% if T.version.minor % 2 %}\n{% endif %}\n \n")
+        lctx = LanguageContextBuilder(include_experimental_languages=True).set_target_language("c").create()
+        for kind in ("trim_lim1", "lim2", "trim_lim0", "lim1_trim"):
+            current[0] = kind
+            ns = nunavut.build_namespace_tree(types, os.path.join(d, "dsdl", "cov"), os.path.join(d, "out_blank_" + kind), lctx)
+            gen = nunavut.jinja.DSDLCodeGenerator(ns, templates_dir=pathlib.Path(tpl), post_processors=make_pps(kind))
+            gen.generate_all()
+            ctx.count("real_generators_writing_files_with_blank_edges")
     finally:
         nunavut.jinja.CodeGenerator._generate_with_line_buffer = classmethod(orig)
     r = random.Random("c15real/%s" % ctx.seed)
-    for path, chunks in recorded:
+    for path, chunks, kind_used in recorded:
         text = "".join(chunks)
         ctx.count("real_files")
         ctx.count("real_chunks", len(chunks))
         with open(path, "r", encoding="utf-8", newline="") as f:
             written = f.read()
-        # the shared LimitEmptyLines instance carries state across files (judged by C10), so the file is compared
-        # with the trim-only contract here, and the replays below use fresh processors.
         ctx.count("evaluations")
         why = None
+        # every file is the complete text of its own rendering: the processors are applied to it as if it were the only file
+        fresh = [TrimTrailingWhitespace() if x[0] == "trim" else LimitEmptyLines(x[1]) for x in kind_used[1] if x[0] in ("trim", "lim")]
+        if len(fresh) == len(kind_used[1]):
+            ref = io.StringIO()
+            for ln in split_lines(text):
+                for pp in fresh:
+                    ln = pp(ln)
+                ref.write(ln[0] + ln[1])
+            ctx.count("real_files_compared_with_fresh_processors")
+            if written != ref.getvalue():
+                why = "file written by the real call site differs from the processors applied line by line to its own complete text (%s)" % (kind_used,)
         if any(l != l.rstrip() for l, t in split_lines(written)):
             why = "real call site left trailing whitespace"
         if [l for l, t in split_lines(written) if l] != [l.rstrip() for l, t in split_lines(text) if l.rstrip()]:
